@@ -1,0 +1,18 @@
+//go:build verif
+
+// Contracts for the SBI routes. Compiled only under the build tag "verif".
+
+package sbi
+
+// ghost view of the response written through gin (updated by the assumed contracts of gin.Context)
+var ghostHttpStatus int
+var ghostHttpBody bool
+var ghostHttpWrites int
+
+// The recharging route: any path parameter gets exactly one answer - 204 after the notification was
+// handed on, or a 400 problem for a parameter that is not <ueId>_<ratingGroup>; it never panics (C11, C12).
+//@ func (*Server).RechargePut [C11 C12]
+//@   entry
+//@   requires s != nil && s.ServerChf != nil && c != nil && ghostHttpWrites >= 0 && ghostHttpWrites < 1<<40
+//@   ensures ghostHttpWrites == old(ghostHttpWrites)+1
+//@   ensures ghostHttpStatus == 204 || (ghostHttpStatus == 400 && ghostHttpBody)
